@@ -20,6 +20,7 @@ body_compat row_compat row_proj tyC_struct tyC_enum tyC_vec tyC_option_some tyC_
 spec_valid specFields_valid specVars_valid skip_encTy skip_frame skip_piece assemble_total fieldsFit_of_frame
 stepC_piece stepC_gap reader_val_eq projFields_find assemble_ok""".split()]
 PACKAGES = ["dgen"]
+on_build_failure = base.on_build_failure
 def prepare(seed, tier):
     base.ID_FOR_ATTRS[0] = False          # the attribute front-end stream belongs to C08
     base.prepare(seed, tier)
@@ -72,7 +73,7 @@ def streams(rng, tier):
                     rows.append((f"dcompat {names[i]} {sv} {names[j]} {a} #edit:{'|'.join(x.replace(' ', '_') for x in ch.notes[min(i, j) + 1:max(i, j) + 1])}",
                                  f"dcompat {protos[i]} {sv} {protos[j]}", f"dproject {protos[i]} {sv} {protos[j]}"))
 
-    st = Stream("derive-compat", "dgen", [r[0] for r in rows], model_ops=[r[1] for r in rows], spec_ops=[r[2] for r in rows], judge=judge, rule=RULE)
+    st = Stream("derive-compat", "dgen", [r[0] for r in rows], model_ops=[r[1] for r in rows], spec_ops=[r[2] for r in rows], judge=base.guard_pruned(judge, tier), rule=RULE)
     st.shrinkable = False
     return [st]
 
